@@ -222,6 +222,8 @@ def run_shard(ctx):
             if idx % ctx.nshards != ctx.shard:
                 continue
             s = np.array(seq, dtype=float) if idx % 3 else np.array(seq, dtype=np.int64)
+            if idx % 5 == 0 and L <= 6:
+                s = np.array(seq, dtype=float) * 3e-10       # micro amplitude: same sign pattern, exact zeros stay zeros
             nontriv = len(set(seq)) > 1
             n_enum += 1
             n_nt += nontriv
@@ -256,10 +258,23 @@ def run_shard(ctx):
     for c in range(n_rand):
         n = int(rng.choice([2, 3, 5, 8, 13, 50, 200, 1000, 5000], p=[.05, .05, .1, .1, .1, .2, .2, .15, .05]))
         x, cls = random_series(rng, n)
+        r = rng.random()
+        if r < 0.2:         # micro-amplitude records: non-zero samples far below 1e-8 (exact zeros stay exact)
+            x = x * 10 ** rng.uniform(-13, -7)
+            cls += '-micro'
+        elif r < 0.3:       # narrow / unsigned integer dtypes using most of their range
+            dt_ = [np.int8, np.int16, np.int32][int(rng.integers(3))]
+            ii = np.iinfo(dt_)
+            xi_ = rng.integers(ii.min // 2, ii.max // 2, size=n)
+            xi_[rng.random(n) < 0.1] = 0
+            x = xi_.astype(float)
+            cls = 'narrow-int'
         nontriv = len(set(x.tolist())) > 1
-        tol = 0.0 if rng.random() < 0.5 else float(rng.uniform(0, np.max(np.abs(x)) + 1e-9))
+        tol = 0.0 if rng.random() < 0.5 else float(rng.uniform(0, np.max(np.abs(x)) + 1e-300))
         kaz = bool(rng.random() < 0.5)
         cont = x.tolist() if rng.random() < 0.15 else x
+        if cls == 'narrow-int':
+            cont = x.astype(dt_)
         ctx.case(core.digest(x, tol, kaz), nontrivial=nontriv, cls='random-' + cls,
                  sample={'fn': 'crossings+switched', 'n': n, 'class': cls, 'tol': tol, 'keep_adj_zeros': kaz, 'head': x[:10]})
         _zc(eqsig, cont, ctx, kaz, 0.0)
